@@ -86,10 +86,7 @@ pub fn broad(o: &mut O, prop: u8, tier: &str, rng: &mut Rng) {
         _ => 320,
     };
     for i in 0..n {
-        let mut plan = covering_plan(rng, i);
-        if plan.fold && plan.form {
-            plan.method = "POST".to_string();
-        }
+        let plan = covering_plan(rng, i);
         let sp = if i % 5 == 0 { Spelling::canonical() } else { Spelling::random(rng) };
         let off: i128 = match rng.below(6) {
             0 => 900_000_000_000,
@@ -117,19 +114,33 @@ pub fn broad(o: &mut O, prop: u8, tier: &str, rng: &mut Rng) {
         }
         let mut x = x_accept();
         if prop == 16 {
-            x.ts = Some(plan.t as i128 * 1_000_000_000);
+            x.ts = Some(plan.t as i128 * 1_000_000_000 + plan.t_frac_ns as i128);
         }
         let tags = format!(
-            "broad,{},{}{},{},{}{}{}",
+            "broad,{},{}{},{},{}{}{}{}",
             carrier_tag(&plan),
             if plan.s3 { "s3" } else { "std" },
             if plan.fold { "+fold" } else { "" },
             if plan.form { "form" } else { "raw" },
             if plan.token.is_some() { "token" } else { "notoken" },
             if plan.extra_date.is_some() && !plan.use_date_header { ",xdate" } else { "" },
-            if plan.use_date_header { ",date_source" } else { "" }
+            if plan.use_date_header { ",date_source" } else { "" },
+            if plan.twist.is_empty() { String::new() } else { format!(",twist:{}", plan.twist) }
         );
         emit(o, prop, &b.wire, &cfg, &b.prov, &x, &format!("{},accept", tags));
+        if !sent.iter().any(|h| h == "host") {
+            // the client met the built-in rule through `:authority`: a service that declares Host is not satisfied
+            let mut c2 = b.cfg.clone();
+            let decl = ["Host", "host", "HOST"][i % 3].to_string();
+            if i % 2 == 0 {
+                c2.always = vec![decl];
+                emit(o, prop, &b.wire, &c2, &b.prov, &x_kind(K_MISMATCH, 0), &format!("{},declared_host_unsigned", tags));
+            } else if names.iter().any(|n| n == "host") {
+                c2.ifreq = vec![decl];
+                c2.vec_reqs = true;
+                emit(o, prop, &b.wire, &c2, &b.prov, &x_kind(K_MISMATCH, 0), &format!("{},declared_host_unsigned", tags));
+            }
+        }
         if i % 3 != 0 {
             continue;
         }
@@ -144,6 +155,16 @@ pub fn broad(o: &mut O, prop: u8, tier: &str, rng: &mut Rng) {
         let mut pv = b.prov.clone();
         pv.table[0].0 = b"SOMEONEELSE".to_vec();
         emit(o, prop, &b.wire, &cfg, &pv, &x_kind(K_UNKNOWN_KEY, 1), &format!("{},unknown_key", tags));
+        // a key store that fails with an I/O error of some kind, wrapped in SignatureError::IO or bare
+        let e = ErrSpec::Io(((i / 3) % IO_KINDS.len()) as u8, (i / 3) % 3 != 2);
+        let mut pv = b.prov.clone();
+        if i % 2 == 0 {
+            pv.fail = Some(e.clone());
+            emit(o, prop, &b.wire, &cfg, &pv, &x_kind(e.kind(), 1), &format!("{},provider_io_error,call", tags));
+        } else {
+            pv.ready_err = Some(e.clone());
+            emit(o, prop, &b.wire, &cfg, &pv, &x_kind(e.kind(), 0), &format!("{},provider_io_error,ready", tags));
+        }
     }
 }
 
@@ -192,9 +213,6 @@ pub fn extra_date(o: &mut O, prop: u8, tier: &str, rng: &mut Rng) {
     let n = if quick { 16 } else { 200 };
     for i in 0..n {
         let mut plan = covering_plan(rng, i);
-        if plan.fold && plan.form {
-            plan.method = "POST".to_string();
-        }
         plan.use_date_header = false;
         let vals = extra_date_values(plan.t);
         plan.extra_date = Some((vals[i % vals.len()].clone(), i % 3 != 0));
@@ -979,7 +997,7 @@ pub fn confusables(o: &mut O, prop: u8, tier: &str, rng: &mut Rng) {
 // ---------------------------------------------------------------------------------------------
 // C14: I/O errors of every kind, providers that fail and then recover
 
-pub fn io_errors_and_recovery(o: &mut O, tier: &str, rng: &mut Rng) {
+pub fn io_errors_and_recovery(o: &mut O, prop: u8, tier: &str, rng: &mut Rng) {
     let sp = Spelling::canonical();
     let nk = IO_KINDS.len() as u8;
     // every kind, wrapped in SignatureError::IO (comes back as IO) and bare (comes back as an internal failure),
@@ -1009,10 +1027,14 @@ pub fn io_errors_and_recovery(o: &mut O, tier: &str, rng: &mut Rng) {
                         p.fail_first = fail_first;
                         1
                     };
-                    emit(o, 14, &b.wire, &b.cfg, &p, &x_kind(e.kind(), calls), &format!("c14,io_error,kind{},{},{},fail_first{}", k, if wrapped { "wrapped" } else { "bare" }, if ready { "ready" } else { "call" }, fail_first));
+                    emit(o, prop, &b.wire, &b.cfg, &p, &x_kind(e.kind(), calls), &format!("c14,io_error,kind{},{},{},fail_first{}", k, if wrapped { "wrapped" } else { "bare" }, if ready { "ready" } else { "call" }, fail_first));
                 }
             }
         }
+    }
+    if prop != 14 {
+        // (the provider's state across calls is C14's subject)
+        return;
     }
     // a provider that fails its first k calls with any error and answers afterwards: one validation makes
     // one call and reports that call's error
